@@ -9,7 +9,9 @@ groups; a copy into another workspace keeps every uid that is free there."""
 from __future__ import annotations
 
 import gc
+import os
 import random
+import shutil
 import uuid
 
 import numpy as np
@@ -37,6 +39,7 @@ def gen_cases(tier, seed):
                 for old in ("group", "object", "data") for new in ("group", "object", "data") for via in ("workspace", "parent") for collect in (True, False) for stored in (False, True)]
     scripted += [{"kind": "type-script", "profile": "type-script", "as": a, "stored": st} for a in ("data-type-with-object-type-uid", "data-type-with-group-type-uid", "second-data-type-same-uid") for st in (False, True)]
     scripted += [{"kind": "copyback-script", "profile": "copyback-script", "collect": c, "with_pg": w, "via": v} for c in (True, False) for w in (True, False) for v in ("workspace", "parent")]
+    scripted += [{"kind": "aged-script", "profile": "aged-script", "shape": sh, "ages": a, "nested": nst, "from_copy": fc} for sh in ("points", "curve-pg", "survey-pair") for a in (1, 3) for nst in (False, True) for fc in (False, True)]
     return scripted + [{"kind": "history", "profile": ["reuse", "copy", "mixed"][i % 3], "n_ops": [10, 15, 22][i % 3] if tier == "quick" else [15, 30, 45][i % 3], "gc": ["default", "seeded", "every", "aggressive"][(i // 3) % 4], "refs": ["strong", "refetch", "drop"][(i // 9) % 3]} for i in range(n)]
 
 
@@ -480,7 +483,122 @@ def rng_choice(case):
     return {"group": "object", "object": "data", "data": "group"}[case["new"]]
 
 
+def run_aged_script(case, rec):
+    """A long-lived session: entities that have survived collections (so they sit in the collector's old generation) and take
+    part in reference cycles (visual parameters know their object, linked surveys know each other) are removed with their
+    group.  From the moment the removal returns and the caller lets go of the group -- without any collection of the caller's
+    own -- their identifiers are free: look-ups yield nothing, listings do not show them, the identifier can be used again and
+    a copy from another workspace keeps its identifiers."""
+    import tempfile
+
+    from geoh5py.groups import ContainerGroup
+    from geoh5py.objects import Curve, Points
+    from geoh5py.workspace import Workspace
+
+    rng = random.Random(case["seed"])
+    d = tempfile.mkdtemp(prefix="gvm_c06a_")
+    where = f"aged:{case['shape']}:{'nested' if case['nested'] else 'flat'}:{'copy' if case['from_copy'] else 'made'}"
+    gc_was = gc.isenabled()
+    try:
+        src = Workspace.create(os.path.join(d, "src.geoh5"))
+        tgt = Workspace.create(os.path.join(d, "tgt.geoh5"))
+        home = src if case["from_copy"] else tgt
+
+        def build(ws, parent):
+            if case["shape"] == "points":
+                o = Points.create(ws, parent=parent, vertices=np.arange(15.0).reshape(5, 3), name="origin")
+                o.add_data({"v": {"values": np.arange(5.0)}})
+            elif case["shape"] == "curve-pg":
+                o = Curve.create(ws, parent=parent, vertices=np.arange(18.0).reshape(6, 3), name="origin")
+                a = o.add_data({"a": {"values": np.arange(6.0)}, "b": {"values": np.arange(6.0) + 1}})
+                o.add_data_to_group(a, "grp")
+            else:
+                from . import c20
+
+                pairs = [q for q in c20.discover_pairs() if q[3] not in ("large",)]
+                pair = pairs[rng.randrange(len(pairs))]
+                rx, tx, extra = c20.build_pair(ws, pair, rng, parent=parent)
+                c20.link(pair, rx, tx, "from-receivers", extra)
+                o = rx
+            if o is not None and hasattr(o, "add_default_visual_parameters"):
+                o.add_default_visual_parameters()
+            return o
+
+        box = ContainerGroup.create(tgt, name="box")
+        inner = ContainerGroup.create(tgt, name="inner", parent=box) if case["nested"] else box
+        if case["from_copy"]:
+            origin = build(src, src.root)
+            if origin is None:
+                rec.see("aged-shape-unavailable")
+                return
+            first = origin.copy(parent=inner)
+        else:
+            first = build(tgt, inner)
+            if first is None:
+                rec.see("aged-shape-unavailable")
+                return
+            origin = None
+        wanted = {str(first.uid): type(first).__name__}
+        for c in first.children:
+            wanted[str(c.uid)] = type(c).__name__
+        for sib in inner.children:
+            wanted[str(sib.uid)] = type(sib).__name__
+            for c in getattr(sib, "children", []) or []:
+                wanted[str(c.uid)] = type(c).__name__
+        if case["nested"]:
+            wanted[str(inner.uid)] = "ContainerGroup"
+        first_uid = first.uid
+        first = sib = c = inner = None
+        for _ in range(case["ages"]):
+            gc.collect()
+        gc.disable()  # nothing below may depend on when the interpreter would have collected
+        tgt.remove_entity(box)
+        box = None
+        rec.see("aged-removals")
+        for u, cname in sorted(wanted.items()):
+            found = tgt.get_entity(uuid.UUID(u))[0]
+            rec.check("C06.lookup", found is None, op=where, cls=cname, attr="removed-still-resolves", detail=f"right after the removal of its group returned, {u} still resolves to {type(found).__name__} {getattr(found, 'name', None)!r}")
+            found = None
+        listed = {str(e.uid) for _, e in all_entities(tgt)} & set(wanted)
+        rec.check("C06.lookup", not listed, op=where, cls="Workspace", attr="removed-still-listed", detail=f"the listings still show removed entities {sorted(listed)[:3]}")
+        try:
+            again = Points.create(tgt, vertices=np.zeros((2, 3)), name="again", uid=first_uid)
+            rec.check("C06.reuse-free-uid", again.uid == first_uid, op=where, cls="Points", attr="uid", detail="re-creation under the freed identifier got another identifier")
+            tgt.remove_entity(again)
+            again = None
+        except Exception as exc:  # noqa: BLE001
+            from ..core import exc_origin
+
+            if not exc_origin(exc)[0]:
+                raise
+            rec.fail("C06.reuse-free-uid", op=where, cls="Points", attr=type(exc).__name__, detail=f"re-creation under the identifier of a removed entity was refused: {exc}")
+        if origin is not None:
+            second = origin.copy(parent=tgt.root)
+            got = {str(second.uid)} | {str(c.uid) for c in second.children}
+            exp = {str(origin.uid)} | {str(c.uid) for c in origin.children}
+            if case["shape"] == "survey-pair":
+                # a copied survey re-creates its link data (documented re-numbering): the entity itself is what keeps its identifier
+                got, exp = {str(second.uid)}, {str(origin.uid)}
+            rec.check("C06.copy-other-ws-uid", got == exp, op=where, cls=type(origin).__name__, attr="uid", detail=f"the identifiers are free in the target but the copy did not keep them: {sorted(exp - got)[:3]} missing")
+            rec.see("copies-other-ws")
+        rec.nontrivial = True
+        rec.shape = ["aged-script", case["shape"], case["ages"], case["nested"], case["from_copy"]]
+        rec.sample = {"profile": "aged-script", "shape": case["shape"]}
+    finally:
+        if gc_was:
+            gc.enable()
+        for w in ("src", "tgt"):
+            try:
+                locals()[w].close()
+            except Exception:  # noqa: BLE001
+                pass
+        shutil.rmtree(d, ignore_errors=True)
+        gc.collect()
+
+
 def run_case(case, rec):
+    if case["kind"] == "aged-script":
+        return run_aged_script(case, rec)
     if case["kind"] == "recreate-script":
         return run_recreate_script(case, rec)
     if case["kind"] == "type-script":
